@@ -269,6 +269,105 @@ def describe(c):
     return "%s %s" % (c["kind"], bytes(c["src"]).decode("utf-8", "replace")[:120])
 
 
+# ------------------------------------------------------------------ literals in sequence (LitSeq.tla)
+UMAX = str((1 << 64) - 1)
+
+
+def _mid(fmt, shapes, wide=False, **kw):
+    return lambda c: c["kind"] == "mid" and c["fmt"] == fmt and c["shape"] in shapes and c["wide"] == wide and \
+        all(c[k] == v for k, v in kw.items())
+
+
+def _int(val, base=None):
+    return lambda c: c["kind"] == "int" and c["val"] == val and (base is None or c["base"] == base)
+
+
+SEQ_CLASSES = {       # class name of LitSeq.tla -> which generated literals instantiate it
+    "flt-subnormal-double": lambda c: _mid("d", ("den", "dhi"))(c) and not (c["j"] == 0 and c["shape"] == "den" and c["val"] == 0) and c["side"] != "eq",
+    "flt-subnormal-float": lambda c: _mid("f", ("den", "dhi"))(c) and not (c["j"] == 0 and c["shape"] == "den" and c["val"] == 0) and c["side"] != "eq",
+    "flt-underflow-zero-double": _mid("d", ("den",), j=0, side="dn"),
+    "flt-underflow-zero-float": _mid("f", ("den",), j=0, side="dn"),
+    "flt-tiny-long-double": lambda c: _mid("d", ("den", "dhi"), wide=True)(c),
+    "flt-near-max-double": _mid("d", ("lo", "hi"), e=971),
+    "flt-near-max-float": _mid("f", ("lo", "hi"), e=104),
+    "flt-hex-exact": lambda c: c["kind"] == "flt" and c["hex"],
+    "flt-dec-exact": lambda c: c["kind"] == "flt" and not c["hex"],
+    "int-umax-hex": _int(UMAX, 16), "int-umax-dec": _int(UMAX, 10), "int-umax-oct": _int(UMAX, 8), "int-umax-bin": _int(UMAX, 2),
+    "int-umax-minus-1": _int(str((1 << 64) - 2)), "int-2^63": _int(str(1 << 63)), "int-2^63-minus-1": _int(str((1 << 63) - 1)),
+    "int-2^32": _int(str(1 << 32)), "int-2^31": _int(str(1 << 31)),
+    "int-small": lambda c: c["kind"] == "int" and len(c["val"]) <= 3,
+    "chr-max-escape": lambda c: c["kind"] == "chr" and c["kinds"][0] in ("hex", "oct") and int(c["val"]) >= 255,
+    "str-escapes": lambda c: c["kind"] == "str" and c["fam"] == "str" and c["pfx"] in ("", "u8") and "hex" in c["kinds"],
+    "str-wide-max-escape": lambda c: c["kind"] == "str" and c["fam"] == "str" and c["pfx"] in ("U", "L") and c["kinds"] == ["hex"] and c["size"] == 8,
+}
+
+
+def run_sequences(ctx, tree, seqs, pool):
+    """one translation unit per class sequence: each literal must print what it prints in isolation"""
+    inst = {}
+    for name, pred in SEQ_CLASSES.items():
+        inst[name] = [c for c in pool if pred(c)]
+        if not inst[name] and pool:
+            raise Infra("no generated literal instantiates class %s" % name)
+    unknown = set(n for s in seqs for n in s["classes"]) - set(inst)
+    if unknown:
+        raise Infra("LitSeq classes without a generator predicate: %s" % sorted(unknown))
+    d = ctx.tmp("seq")
+    work = []
+    for j, sq in enumerate(seqs):
+        cs = sq.get("_cases") or [inst[n][(ctx.seed * 7 + j * 13 + k) % len(inst[n])] for k, n in enumerate(sq["classes"])]
+        work.append((j, sq, cs))
+
+    def build(j, sq, cs, use_gcc):
+        parts = [render(k, c) for k, c in enumerate(cs)]
+        main = b"int main(void) {\n" + b"".join(b" f%d();\n" % k for k in range(len(cs))) + b" return 0; }\n"
+        f = "%s/s%d.c" % (d, j)
+        if sq["header"]:                       # the first literal lives in an included header
+            open("%s/s%d.h" % (d, j), "wb").write(parts[0])
+            text = PRELUDE + b"#include \"s%d.h\"\n" % j + b"".join(parts[1:]) + main
+        else:
+            text = PRELUDE + b"".join(parts) + main
+        open(f, "wb").write(text)
+        exe = f[:-2] + (".gx" if use_gcc else ".exe")
+        cmd = ["gcc", "-w", "-std=gnu11", "-o", exe, f] if (use_gcc or ORACLE_CHECK) else [tree + "/chibicc", "-I" + tree + "/include", "-o", exe, f]
+        p = vt.run_limited(cmd, timeout=120, mem_gb=4, errors="replace")
+        if p.returncode != 0:
+            return None, p.stderr[-300:]
+        r = vt.run_limited([exe], timeout=30, mem_gb=1, errors="replace")
+        try:
+            os.unlink(exe)
+        except OSError:
+            pass
+        return r.stdout.strip(), "rc=%s" % r.returncode
+
+    def one(t):
+        j, sq, cs = t
+        exp = "\n".join(expect(k, c) for k, c in enumerate(cs))
+        got, err = build(j, sq, cs, False)
+        gout = build(j, sq, cs, True)[0] if got != exp else exp
+        return j, sq, cs, exp, got, err, gout
+    for j, sq, cs, exp, got, err, gout in vt.pmap(one, work, workers=8):
+        ctx.note_case("seq:%s:%s" % (">".join(sq["classes"]), b"|".join(bytes(c["src"])[:200] for c in cs).hex()))
+        if got == exp:
+            continue
+        if gout != exp:
+            ctx.oracle_disagreements += 1
+            continue
+        if got is None:
+            what = "rejected"
+        else:
+            bad = [k for k, (a, b) in enumerate(zip(exp.splitlines(), got.splitlines() + [""] * 3)) if a != b]
+            what = "literal-%d-differs" % (bad[0] + 1 if bad else len(cs))
+        ctx.report("seq:%s:%s" % (">".join(sq["classes"]), what),
+                   "literals %s in one translation unit%s: expected %s, got %s %s" % (
+                       " ; ".join(bytes(c["src"]).decode("utf-8", "replace")[:50] for c in cs), " (first one in a header)" if sq["header"] else "",
+                       exp.replace("\n", " / ")[:200], (got or "").replace("\n", " / ")[:200], err),
+                   case=dict(kind="seq", seq={k: v for k, v in sq.items() if k != "_cases"}, cases=[jsonable(c) for c in cs]))
+    with _lock:
+        ctx.cov["traces_validated_against_impl"] += len(work)
+    ctx.cov["literal_sequences"] = len(work)
+
+
 # ------------------------------------------------------------------ constraint violations, header types
 def run_diag(ctx, tree, cases):
     """literals that violate a constraint of 6.4.3 / 6.4.4 (the complement of the generated domain as far as the
@@ -369,7 +468,7 @@ def run(ctx):
     tree = ctx.build()
     ctx.phase("build done")
     import c11_cp
-    outs = {k: os.path.join(ctx.scratch, k + ".ndjson") for k in ("int", "str", "cat", "utf", "flt", "mid")}
+    outs = {k: os.path.join(ctx.scratch, k + ".ndjson") for k in ("int", "str", "cat", "utf", "flt", "mid", "seq")}
     jobs = [
         lambda: tlc_gen(ctx, "LitInt", "LitInt.cfg", outs["int"], "convert_pp_int's ladder (Level I) differs from 6.4.4.1 (Level A)", Emit=True),
         lambda: tlc_gen(ctx, "LitStr", "LitStr.cfg", outs["str"], "character constant / string literal design differs from 6.4.4.4 / 6.4.5",
@@ -377,6 +476,8 @@ def run(ctx):
         lambda: tlc_gen(ctx, "LitFlt", "LitFlt.cfg", outs["flt"], "floating constant model is inconsistent", workers=2, Emit=True),
         lambda: tlc_gen(ctx, "LitMid", "LitMid.cfg", outs["mid"], "floating constants next to a rounding midpoint: one rounding per type", workers=3, Emit=True),
         lambda: control(ctx, "LitMid", "LitMid.cfg", "via-ldouble"),
+        lambda: (tlc_gen(ctx, "LitSeq", "LitSeq.cfg", outs["seq"], "a literal's value depends on the literals before it (hidden tokenizer state)", workers=2, Emit=True),
+                 control(ctx, "LitSeq", "LitSeq.cfg", "stale-errno")),
         lambda: control(ctx, "LitInt", "LitInt.cfg", "skip-unsigned-hex"),
         lambda: control(ctx, "LitInt", "LitInt.cfg", "l-ignored-hex"),
         lambda: control(ctx, "LitStr", "LitStr.cfg", "no-widen", Small=True, Fams='{"cat"}'),
@@ -429,6 +530,12 @@ def run(ctx):
     m0 = next(c for c in sel_m if c["side"] != "eq" and not c["wide"] and len(c["src"]) < 80)
     ctx.sample(dict(kind="mid", literal=bytes(m0["src"]).decode(), lower=bytes(m0["lower"]).decode(), expected=expect(0, m0)))
     compare(ctx, tree, sel_m, "mid", first=500000, per=150)
+    seqs = sorted(vt.read_ndjson(outs["seq"]), key=lambda r: (len(r["classes"]), r["classes"]))
+    if len(seqs) < 400:
+        raise Infra("LitSeq wrote only %d sequences" % len(seqs))
+    pairs = [r for r in seqs if len(r["classes"]) == 2]
+    triples = [r for r in seqs if len(r["classes"]) == 3]
+    run_sequences(ctx, tree, pairs + vt.subsample(triples, ctx.seed, 2 if q else 1), ints + flts + mids + strs)
     run_diag(ctx, tree, diags)
     run_headers(ctx, tree)
     ctx.phase("literal replay done")
@@ -462,6 +569,8 @@ def replay(ctx, path):
     import c11_cp
     if c.get("kind") in ("uc", "ucbad"):
         c11_cp.replay_uc(ctx, tree, c)
+    elif c.get("kind") == "seq":
+        run_sequences(ctx, tree, [dict(c["seq"], _cases=c["cases"])], [])
     elif c.get("kind") == "longfile":
         c11_cp.replay_long(ctx, tree, c)
     elif c.get("kind") == "diag":
